@@ -33,8 +33,8 @@
 (*  PARTIAL  calcLIB takes the (len-1)/3-th smallest of the proposals of   *)
 (*           the producers seen so far (not of all N producers)            *)
 (*  H1       load() at height 1 rebuilds nothing (beg = end)               *)
-(* Three defects found with this model were repaired in the code; the      *)
-(* constant Fixes says which repairs the model contains (all of them in    *)
+(* Five defects found with this model were repaired in the code; the       *)
+(* constant Fixes says which repairs the model contains (all FIVE in       *)
 (* every configuration that is checked or replayed; {} = the code before): *)
 (*  "attach" (b495bde5) the restored status is attached when the Status is *)
 (*           created; before, it was attached at the first Update only and *)
@@ -44,13 +44,12 @@
 (*           abandoned branch (STALE)                                      *)
 (*  "mono"   (c846cf0d) the LIB is only replaced by a higher one; before,  *)
 (*           the result of calcLIB was assigned unconditionally (UNCOND)   *)
-(* Two more repairs are PROPOSED, not in the code (never in a configuration *)
-(* whose behaviours are replayed):                                         *)
-(*  "persist" the status is also saved after a block failed (as a child of *)
+(* Two more defects, found with blocks that fail in execution:             *)
+(*  "persist" (4cd694af) the status is also saved after a block failed (as a child of *)
 (*           the best block or inside a reorganisation that is given up):  *)
 (*           Update calls made on the way may have raised the LIB, which   *)
 (*           is lost at the next restart otherwise (UNSAVED)               *)
-(*  "onchain" a rollback resets every proposal that is not a block of the  *)
+(*  "onchain" (fb65fdad) a rollback resets every proposal not found in the  *)
 (*           height index, not only those numbered above the target: the   *)
 (*           valid prefix of a reorganisation that is given up makes       *)
 (*           proposals at or below the old best block's number (STALE2)    *)
